@@ -258,7 +258,7 @@ func Grammar(tier string, v2 bool) []GrammarItem {
 	{
 		// (bytes and fixed keys are left out: Rest.li keys are strings, numbers, booleans, enums, typerefs /
 		// custom types of those, or complex keys)
-		keyNames := []string{"String", "Int32", "Int64", "Bool", "Float32", "Float64", "E3", "TrString", "TrInt64", "TrBool", "CK", "CKU", "CtString", "CtInt64"}
+		keyNames := []string{"String", "Int32", "Int64", "Bool", "Float32", "Float64", "E3", "TrString", "TrInt64", "TrBool", "CK", "CKU", "CKD", "CKDS", "CtString", "CtInt64"}
 		for _, kn := range keyNames {
 			u := NewUniverse("g")
 			d0, _, _ := typeExprs(u, v2)
@@ -271,6 +271,15 @@ func Grammar(tier string, v2 bool) []GrammarItem {
 			switch kn {
 			case "CK":
 				kt = u.ComplexKey("CK", u.Record("KeyRec", nil, Req("k1", P(String)), Req("k2", P(Int64))), u.Record("ParRec", nil, Opt("p", P(String))))
+			case "CKD":
+				// key and parameter records with defaulted fields; the complex key itself is generated in the package
+				// of its resource, away from them
+				kt = u.ComplexKey("CKD",
+					u.AddNS("g.keydefs", &Type{Kind: Record, Name: "KeyRecD", Fields: []*Field{Req("k1", P(String)), Def("k2", P(Int64), "5")}}),
+					u.AddNS("g.keydefs", &Type{Kind: Record, Name: "ParRecD", Fields: []*Field{Def("p", P(String), `"dflt"`)}}))
+			case "CKDS":
+				// the same next to its records
+				kt = u.ComplexKey("CKDS", u.Record("KeyRecDS", nil, Req("k1", P(String)), Def("k2", P(Int64), "5")), u.Record("ParRecDS", nil, Def("p", P(String), `"dflt"`)))
 			case "CKU":
 				small := u.ByName["RecSmall"]
 				kt = u.ComplexKey("CKU", u.Record("KeyRecU", nil, Req("k1", u.ByName["USmall"]), Opt("k2", ArrayOf(small)), Req("k3", u.ByName["E3"])), u.Record("ParRecU", nil, Opt("p", MapOf(P(Int32)))))
